@@ -25,7 +25,7 @@ Max2(a, b) == IF a > b THEN a ELSE b
 Min2(a, b) == IF a < b THEN a ELSE b
 Chunks == {<<-32768 + 4096 * j, -32768 + 4096 * j + 4095>> : j \in 0..15}       \* covers the int16 range
 EraBounds == {<<400 * k - 1, 400 * k + 1>> : k \in -81..81}                    \* years around every era start
-QuickRanges == {<<-800, 800>>, <<-32768, -32700>>, <<32700, 32767>>}
+QuickRanges == {<<-800, 800>>, <<1900, 2100>>, <<-32768, -32700>>, <<32700, 32767>>}   \* year 0, the epoch (day 0), both ends
 Ranges == IF Tier = "quick" THEN QuickRanges ELSE Chunks
 \* day sweeps: [ylo-01-01, yhi-12-31] inside years -32767..32767; detail = 1 adds per-day year_month_weekday
 DaySweeps == {<<Max2(r[1], YearMin), Min2(r[2], YearMax), 0>> : r \in Ranges} \cup {<<r[1], r[2], 1>> : r \in EraBounds}
